@@ -41,7 +41,7 @@ class Family:
         cfg = dict(cfg)
         opts = {
             'max_paths': cfg.pop('_max_paths', 400000),
-            'max_wall': cfg.pop('_max_wall', 1500.0),
+            'max_wall': cfg.pop('_max_wall', 1500.0 if tier == 'quick' else 600.0),
             'validate_every': cfg.pop('_validate_every', 1 if tier == 'quick' else 7),
         }
         return cfg, opts
